@@ -6,7 +6,8 @@ reproduce the report body of `fclones::group_files` on generated trees, given th
 implementation's own FileHasher, and every table entry must equal a one-shot reference hash of exactly
 the chunk bytes (64 KiB buffer boundaries included).  Direct oracle: byte comparison of all files of
 every reported group (transform output under --transform).  A sample also goes through the CLI binary.
-Known finding K11 (suffix XOR cancels the prefix hash) is targeted by a dedicated generator.
+The class of the repaired defect K11 (suffix XOR cancelled the prefix hash, f4a00ae) stays targeted by a
+dedicated generator and a corpus case.
 """
 import json
 
@@ -36,7 +37,7 @@ def run(ctx):
     ctx.rule = ("generated trees (1-3 content families x 1-3 single-byte variants, sizes from the stage-threshold table relative to the "
                 "configured prefix P / suffix S / suffix threshold and the 64 KiB read buffer, hard links, file symlinks, 1-5 roots) x option "
                 "product (7 hash functions, rf-over/rf-under/unique, isolate, match-links, max-prefix/suffix sizes, disk kind pin ssd/hdd/unknown, "
-                "fake mounts, 6 transforms, thread specs, cache) + trees aimed at K11; one case = one tree + one option set, run through "
+                "fake mounts, 6 transforms, thread specs, cache) + trees aimed at the repaired K11 class (suffix covers the whole file); one case = one tree + one option set, run through "
                 "fclones::group_files and the extracted model; non-trivial = some group reported or two scanned files of equal length; "
                 "distinct = distinct spec")
     ctx.assumptions = list(G.COMMON_ASSUMPTIONS)
